@@ -79,11 +79,14 @@ fn build_pool(full: bool) -> Vec<PoolBundle> {
     let mut pool = vec![];
     let mut onetime_id = 0u64;
     for (lname, nb, na) in &lifetimes {
+        // The bundles of one lifetime share their signed pre-key (as the one-time bundles of a
+        // member do) and differ in signature and one-time pre-key: a bad signature must be
+        // refused also when a good bundle with the same pre-key is already stored.
+        let prekey_secret = SecretKey::from_bytes(rng.random_array().unwrap());
         for sig in [Sig::Valid, Sig::FlippedBit, Sig::OtherIdentity] {
             if !full && sig != Sig::Valid && !matches!(*lname, "straddle-short" | "straddle-long") {
                 continue;
             }
-            let prekey_secret = SecretKey::from_bytes(rng.random_array().unwrap());
             let prekey = PreKey::new(prekey_secret.verifying_key().unwrap(), Lifetime::from_range(*nb, *na));
             let signature = match sig {
                 Sig::Valid => prekey.sign(&identity, &rng).unwrap(),
